@@ -563,11 +563,93 @@ def _ancestors(prog, f, node):
     return out
 
 
+def _label_names(f: Func) -> tuple[set, set]:
+    pred, ref = set(), set()
+    for n in ast.walk(f.node):
+        if isinstance(n, ast.Name):
+            l = n.id.lower()
+            if l.startswith("pred") and ("label" in l or "idx" in l):
+                pred.add(n.id)
+            elif l.startswith("ref") and ("label" in l or "idx" in l):
+                ref.add(n.id)
+    return pred, ref
+
+
+def check_no_pruning(ctx: Ctx):
+    """R03.6 [N]: candidates must not be reduced to one per label before the greedy loop.
+    Recognised: a local dict keyed by a single (prediction or reference) label - or by a
+    component of a candidate pair - whose values()/items() feed the returned candidate list
+    or the iterable of the greedy loop."""
+    prog = ctx.prog
+    funcs = [prog.func("_functionals:_calc_overlapping_labels"), prog.func("_functionals:_calc_matching_metric_of_overlapping_labels")]
+    funcs += [m for _, m in matcher_classes(ctx)]
+    n = 0
+    for f in funcs:
+        dicts = {}
+        for node in walk_no_nested(f.node):
+            tgt = val = None
+            if isinstance(node, ast.Assign) and len(node.targets) == 1 and isinstance(node.targets[0], ast.Name):
+                tgt, val = node.targets[0].id, node.value
+            elif isinstance(node, ast.AnnAssign) and isinstance(node.target, ast.Name) and node.value is not None:
+                tgt, val = node.target.id, node.value
+            if tgt and (isinstance(val, ast.Dict) and not val.keys or (isinstance(val, ast.Call) and dotted(val.func) in ("dict", "collections.defaultdict", "defaultdict", "OrderedDict"))):
+                dicts[tgt] = node
+        if not dicts:
+            continue
+        # keyed stores
+        keyed = {}
+        for node in walk_no_nested(f.node):
+            d = k = None
+            if isinstance(node, ast.Assign) and len(node.targets) == 1 and isinstance(node.targets[0], ast.Subscript) and isinstance(node.targets[0].value, ast.Name):
+                d, k = node.targets[0].value.id, node.targets[0].slice
+            elif isinstance(node, ast.Call) and isinstance(node.func, ast.Attribute) and node.func.attr == "setdefault" and isinstance(node.func.value, ast.Name) and node.args:
+                d, k = node.func.value.id, node.args[0]
+            if d in dicts and k is not None and not isinstance(k, ast.Tuple):
+                keyed.setdefault(d, []).append((node, k))
+        if not keyed:
+            continue
+        # names derived from the dict
+        derived = {d: {d} for d in keyed}
+        changed = True
+        while changed:
+            changed = False
+            for node in walk_no_nested(f.node):
+                if isinstance(node, ast.Assign) and len(node.targets) == 1 and isinstance(node.targets[0], ast.Name):
+                    used = {x.id for x in ast.walk(node.value) if isinstance(x, ast.Name)}
+                    for d, s_ in derived.items():
+                        if used & s_ and node.targets[0].id not in s_:
+                            s_.add(node.targets[0].id)
+                            changed = True
+        sinks = []
+        for node in walk_no_nested(f.node):
+            if isinstance(node, ast.Return) and node.value is not None:
+                sinks.append(("returned candidate list", node, node.value))
+            if isinstance(node, ast.For) and any(isinstance(c, ast.Call) and isinstance(c.func, ast.Attribute) and c.func.attr == "add_labelmap_entry" for c in ast.walk(node)):
+                sinks.append(("iterable of the greedy assignment loop", node, node.iter))
+        for d, stores in keyed.items():
+            for what, node, expr in sinks:
+                used = {x.id for x in ast.walk(expr) if isinstance(x, ast.Name)}
+                if used & derived[d]:
+                    n += 1
+                    ctx.violated("R03.6", f, stores[0][0], f"{f.qual}:{d}", f"candidate pairs are reduced to one per key of '{d}' (keyed by {norm(stores[0][1])}) and that reduced collection is the {what}: a pair that would be matched after its partner's better candidate is taken is never considered", {"store": norm(stores[0][0])[:100], "sink": norm(expr)[:80]})
+    if n == 0:
+        ctx.ok("R03.6", None, None, "matching:no-candidate-pruning", "no per-label reduction of the candidate pairs feeds the candidate list or the greedy loop", None, nontrivial=False)
+
+
+def _guarded(ctx, name, fn):
+    try:
+        return fn(ctx)
+    except (Undecided, AnchorMissing) as e:
+        ctx.undecided(name, None, None, f"{name}:analysis", f"{type(e).__name__}: {e}")
+        return 0
+
+
 def check(ctx: Ctx):
-    check_codec(ctx)
-    check_candidates(ctx)
-    check_beats(ctx)
-    n = check_naive(ctx)
+    check_no_pruning(ctx)
+    _guarded(ctx, "R03.1", check_codec)
+    _guarded(ctx, "R03.2", check_candidates)
+    _guarded(ctx, "R03.3", check_beats)
+    n = _guarded(ctx, "R03.4", check_naive)
     if n < 1:
         ctx.undecided("R03.4.floor", None, None, "floor:R03.4", f"found {n} add_labelmap_entry sites in the threshold matcher, expected >= 1")
 
